@@ -45,7 +45,9 @@ CHECKS = {
     "C03": dict(
         text="Theorems ls_strict_decrease (any DCSRCH answers, any cap: the returned step's objective value is strictly below the start or the "
              "search fails), accepted_monotone (start, callback states, result form a non-increasing list), failed_ls_keeps_x, result_le_start; "
-             "tied to the code by bit-exact trace replay; the sequence of objective values of real runs is monitored.",
+             "tied to the code by bit-exact trace replay; the sequence of objective values of real runs is monitored, and so is the TRUE objective (the "
+             "harness's own closure) along start / checkpoint point, callback iterates and result, over restart chains with and without gradient "
+             "scalers (finding K1 reported as KNOWN-FINDING).",
         note=SHELL_NOTE + " Fixed objective (no update_fun_def).",
         technique=SHELL_TECH, design_ref="DESIGN.md §4 C03"),
     "C04": dict(
@@ -94,15 +96,17 @@ CHECKS.update({
     "C06": dict(
         text="Theorems restore_pairs (history rebuilt from a checkpoint has exactly the stored pairs as consecutive differences, any additive group), "
              "restore_keeps_most_recent (with memory maxcor' the most recent min(m, maxcor') pairs are kept, in order, matrices rebuilt from them), "
-             "restart_same_memory; bit-equality is not a theorem (the reconstruction rounds): restarts at every iteration k of real runs, with equal "
+             "restore_roundtrip (the history rebuilt from the pairs of a result whose x ends its stored history IS that history: the restart holds the "
+             "memory of the uninterrupted run); bit-equality is not a theorem (the reconstruction rounds): restarts at every iteration k of real runs, with equal "
              "and reduced maxcor, are replayed through the model bit for bit and the next iterate / pairs compared with the uninterrupted run. Known "
              "finding K4 (restart from a result whose x is not the end of its stored history) reported as KNOWN-FINDING.",
         note=SHELL_NOTE, technique="Lean 4 proof (list induction over an additive group) + bit-exact replay of restarts + split-run differential against the uninterrupted run",
         design_ref="DESIGN.md §4 C06"),
     "C07": dict(
         text="Theorems maxiter_only_in_guard / callback_state_eq_run_k (the k-th callback state equals the result of the same run with maxiter = k, "
-             "field by field except message/status/success — by a simulation between the two runs of the model), snapshot_is_value (states are values, "
-             "not aliases); tied by bit-exact replay; on real runs every callback state is compared with the run re-executed with maxiter = state.nit "
+             "field by field except message/status/success — by a simulation between the two runs of the model), snapshot_is_value (recorded states are "
+             "never rewritten: the list only grows at its end), callback_false_transparent (a callback that always answers go-on does not change the "
+             "result: non-interference proof over the whole driver, the logs are ghost); tied by bit-exact replay; on real runs every callback state is compared with the run re-executed with maxiter = state.nit "
              "and frozen copies are compared after the run.",
         note=SHELL_NOTE, technique="Lean 4 proof (simulation between runs with different budgets, induction on fuel) + bit-exact replay + re-run differential",
         design_ref="DESIGN.md §4 C07"),
@@ -119,21 +123,24 @@ CHECKS.update({
              "in [0, alpha*] keeps the point in the box, alpha* <= 1), smw_direction (Mathlib matrices, any field: the direction computed through the small "
              "2m x 2m system solves the reduced Newton system (theta I - W M W^T) d = -r, under M M^-1 = 1). Numerical equality with the dense Newton solve, "
              "model decrease and descent are decided by the differential (Lean Float model vs subspacemin.py vs dense solve) over every free/active partition "
-             "for n <= 4 and random inputs.",
+             "for n <= 4 and random inputs, and in situ: every subspace step recorded inside real runs (memory objects reused across iterations, histories "
+             "rewritten by update functions, rejected pairs) against the dense truncated Newton point of the model defined by the stored pairs.",
         note=KERNEL_NOTE, technique="Lean 4 proof (Sherman-Morrison-Woodbury identity, box invariants) + model/implementation/dense-oracle differential over enumerated partitions",
         design_ref="DESIGN.md §4 C09"),
     "C10": dict(
         text="Theorems: bookkeeping for arbitrary candidate sequences, any arithmetic (reject_is_noop, accept_appends_and_drops_oldest, mem_le_maxcor(_seq), "
              "newest_pair_curv); algebra over any ordered field (bfgs_symm, bfgs_secant, bfgs_posdef, bfgs_chain_posdef, scaled_identity_spd). That the compact "
              "representation (theta I - W M W^T through the triangular factors) equals the dense BFGS recursion is decided by correspondence: bfgsmats.py vs the "
-             "Lean Float compact model vs an independent dense recursion on random histories with rejected pairs, full memory, maxcor 1..12.",
+             "Lean Float compact model vs an independent dense recursion on random histories with rejected pairs, full memory, maxcor 1..12, and forced "
+             "rebuilds after the stored gradients were rewritten (the update_fun_def path of main.py), also with a rejected candidate.",
         note=KERNEL_NOTE, technique="Lean 4 proof (list bookkeeping; BFGS update SPD/secant by Mathlib matrix algebra) + history differential (implementation vs compact model vs dense recursion)",
         design_ref="DESIGN.md §4 C10"),
     "C11": dict(
         text="Theorems over the line-search model with DCSRCH an arbitrary oracle and any arithmetic: ls_points_in_box, ls_evals_le_cap, ls_result_downhill; "
-             "ordered field: maxStep_feasible. Tied by replaying stand-alone line searches of the real code (recorded DCSRCH answers) through the model bit "
+             "ordered field: maxStep_feasible, ls_trials_on_ray; dcsrch_steps_in_range (any arithmetic): the Lean port of SciPy's DCSRCH._iterate + dcstep "
+             "(Model/Dcsrch.lean, compared bit for bit with every recorded stepper call) proposes only steps in [0, stpmax]. Tied by replaying stand-alone line searches of the real code (recorded DCSRCH answers) through the model bit "
              "for bit; every real trial point, count and returned step monitored, incl. caps 1..3 and maxfun about to be exhausted.",
-        note=SHELL_NOTE + " That the step returned is one DCSRCH proposed within [0, stpmax] is SciPy's contract, monitored on every recorded call.",
+        note=SHELL_NOTE + " libm pow(x, 2.0) in the stepper model is the C library's, as in SciPy.",
         technique="Lean 4 proof (loop invariant over an oracle-driven stepper) + bit-exact replay of recorded line searches", design_ref="DESIGN.md §4 C11"),
     "C12": dict(
         text="PARTIAL by proof, completed by differential. Theorems: the default constants and the theta / first-step formulas are the reference ones (tables "
@@ -146,14 +153,16 @@ CHECKS.update({
         design_ref="DESIGN.md §4 C12"),
     "C13": dict(
         text="Theorems over the filter model (Memory.lean filterWolfe, any arithmetic): filter_keeps_newest, filter_subsequence, filter_curvature (every retained "
-             "consecutive pair passes the test on the rewritten gradients), identity_filter_noop; the driver model applies the filter before the stop tests and "
-             "rebuilds the matrices (memStep). Tied by bit-exact replay of runs with update functions (identity, consistent rescale/reweight/indefinite switches, "
+             "consecutive pair passes the test on the rewritten gradients), identity_filter_noop, memStep_mats_current; identity_update_transparent (a run whose "
+             "update function returns its inputs returns the result of the run without it: whole-driver simulation under a memory invariant, using the "
+             "IEEE-exact symmetry of the curvature test, itself a theorem in every commutative ring: curv_test_symmetric). The history filter alone is "
+             "compared bit for bit with the Lean model on one-dimensional histories realising every drop pattern. Tied by bit-exact replay of runs with update functions (identity, consistent rescale/reweight/indefinite switches, "
              "arbitrary rewrites); identity runs compared bit for bit with runs without the hook; next iterate compared with a restart on the new objective.",
         note=SHELL_NOTE, technique="Lean 4 proof (structural induction on the filter) + bit-exact replay + switch/restart differential", design_ref="DESIGN.md §4 C13"),
     "C14": dict(
         text="Theorems: interleaving_independent / schedule_irrelevant / nested_independent (for machines over disjoint states every schedule of any length ends "
              "where the solo runs end); that the package's runs are such machines is read off the source on every run by translate/state2lean.py and checked "
-             "by kernel evaluation: no_shared_mutable_state, no_mutable_default_written, display_is_read_only; run_is_a_function. What static tables cannot "
+             "by kernel evaluation: no_shared_mutable_state, no_mutable_default_written, display_is_read_only, inputs_not_written; run_is_a_function. What static tables cannot "
              "exclude (writes through aliases of the caller's arrays, state in C) is decided by search: frozen read-only inputs and checkpoints with snapshots, "
              "A-B-A repeats with random iprint/logger, two restarts from one checkpoint, two threads interleaved at every user call by explicit schedules, nesting.",
         note=SHELL_NOTE + " SciPy >= 1.12 asserted at run time (the legacy Fortran line search would receive shared default work arrays).",
@@ -169,8 +178,9 @@ CHECKS.update({
         technique="Lean 4 proof (case analysis of the step adjustment over an ordered field; clip invariant for any arithmetic) + bit-exact model/implementation differential of stencils and gradients + run search",
         design_ref="DESIGN.md §4 C16"),
     "C17": dict(
-        text="Theorems: scaler_called_once, scaler_sees_unscaled, scaled_values, target_on_unscaled over the driver model; the equivalence with the explicitly "
-             "scaled objective is decided by pairs of real runs (f with scaler s vs s*f without) compared bit for bit on results and evaluation points, the "
+        text="Theorems: scaler_called_once, scaler_sees_unscaled, scaled_values, target_on_unscaled over the driver model; scaler_equivalence: the run with a "
+             "scaler returning s and the run without scaler on s*f, s*grad f return the same result (whole-driver simulation; callable gradient, no target, "
+             "fresh run; laws a*1 = a and not a < a). The same equivalence is checked on pairs of real runs (f with scaler s vs s*f without) compared bit for bit on results and evaluation points, the "
              "scaler run replayed through the model.",
         note=SHELL_NOTE + " Callable gradient in the pair comparison.", technique="Lean 4 proof (driver invariants) + bit-exact replay + paired-run differential",
         design_ref="DESIGN.md §4 C17"),
